@@ -46,7 +46,7 @@ def outcome_signature(o):
     if o.kind == "syntax":
         return "syntax@" + stmt_kind(exc_line(o.exc))
     if o.kind == "exit":
-        return "SystemExit"
+        return "escape:%s@%s:%s" % real.exc_site(o.exc)
     return "escape:%s@%s:%s" % real.exc_site(o.exc)
 
 
